@@ -222,6 +222,7 @@ Definition sx_hint (h : hint) : sx :=
   match h with
   | HAbsent => sym "absent"
   | HValue q => app_ "value" [sx_Z (Qnum q); sx_Z (Zpos (Qden q))]
+  | HMalformed => sym "malformed"
   | HUnmodelled => sym "unmodelled"
   end.
 
